@@ -207,6 +207,13 @@ func (m *Manager) SetSubscriberQoS(qos *SubscriberQoS) error {
 		Priority:   qos.Priority,
 	}
 
+	// Both buckets and the table entry change under one lock: a RemoveSubscriberQoS
+	// (or a second SetSubscriberQoS) for the same subscriber that ran between these
+	// writes left a tracked subscriber without buckets, a bucket nobody tracks, or
+	// the egress bucket of one policy next to the ingress bucket of another
+	m.subscribersMu.Lock()
+	defer m.subscribersMu.Unlock()
+
 	// Update eBPF maps
 	if m.qosEgress != nil {
 		if err := m.qosEgress.Put(&key, egressTB); err != nil {
@@ -223,9 +230,7 @@ func (m *Manager) SetSubscriberQoS(qos *SubscriberQoS) error {
 	m.verifStep(2)
 
 	// Track locally
-	m.subscribersMu.Lock()
 	m.subscribers[key] = qos
-	m.subscribersMu.Unlock()
 
 	m.logger.Debug("Set subscriber QoS",
 		zap.String("ip", qos.IP.String()),
@@ -267,6 +272,10 @@ func (m *Manager) RemoveSubscriberQoS(ip net.IP) error {
 
 	key := ipToKey(ip4)
 
+	// One critical section with SetSubscriberQoS (see there)
+	m.subscribersMu.Lock()
+	defer m.subscribersMu.Unlock()
+
 	// Remove from eBPF maps
 	if m.qosEgress != nil {
 		m.qosEgress.Delete(&key)
@@ -278,9 +287,7 @@ func (m *Manager) RemoveSubscriberQoS(ip net.IP) error {
 	m.verifStep(4)
 
 	// Remove from local tracking
-	m.subscribersMu.Lock()
 	delete(m.subscribers, key)
-	m.subscribersMu.Unlock()
 
 	m.logger.Debug("Removed subscriber QoS",
 		zap.String("ip", ip.String()),
